@@ -105,11 +105,11 @@ def ensure_macro():
     return so, _MACRO['deps']
 
 
-def _cargo(d, check_only, deny_warnings, lib=False):
+def _cargo(d, check_only, deny_warnings, lib=False, edition='2021'):
     so, deps = ensure_macro()
     name = os.path.basename(d)
     out = os.path.join(d, name)
-    cmd = ['timeout', '1500', 'rustc', '--edition=2021', '--crate-name', name.replace('-', '_'), '--crate-type', 'lib' if lib else 'bin',
+    cmd = ['timeout', '1500', 'rustc', '--edition=' + edition, '--crate-name', name.replace('-', '_'), '--crate-type', 'lib' if lib else 'bin',
            '--error-format=json', '--extern', 'derive_ex=' + so, '-L', 'dependency=' + deps,
            '-C', 'debuginfo=0', '-C', 'opt-level=0', '-C', 'codegen-units=4']
     if check_only:
@@ -149,7 +149,7 @@ def _in_macro_output(span):
 
 
 def compile_batch(name, mods, prelude='', check_only=False, deny_warnings=False, max_rounds=6, crate_attrs=None,
-                  keep_warnings=False):
+                  keep_warnings=False, edition='2021'):
     """Compiles the batch; sets m.compiled and m.diags for every module.
     Returns path of the executable (or None when check_only / nothing compiled)."""
     d = os.path.join(L2, name)
@@ -162,7 +162,7 @@ def compile_batch(name, mods, prelude='', check_only=False, deny_warnings=False,
             for m in live:
                 m.diags = []
             spans = _write_crate(d, name, live, prelude, check_only, crate_attrs)
-            rc, diags, stderr = _cargo(d, check_only, deny_warnings, lib=bool(crate_attrs and 'no_std' in crate_attrs))
+            rc, diags, stderr = _cargo(d, check_only, deny_warnings, lib=bool(crate_attrs and 'no_std' in crate_attrs), edition=edition)
             bad = set()
             unplaced = []
             for msg in diags:
@@ -236,7 +236,7 @@ def decl(head, item, cid, every=4):
     return via_macro(head, item) if cid % every == 0 else head + item
 
 
-def compile_status(name, mods, prelude='', crate_attrs=None):
+def compile_status(name, mods, prelude='', crate_attrs=None, rendered=False):
     """one rustc run (metadata only): (exit status, error messages, last lines of the raw stderr) - for inputs that may
     make the compiler itself die (a proc macro that overflows the stack kills rustc; there are no JSON diagnostics then)"""
     d = os.path.join(L2, name)
@@ -244,6 +244,8 @@ def compile_status(name, mods, prelude='', crate_attrs=None):
     _write_crate(d, name, list(mods), prelude, True, crate_attrs)
     rc, diags, stderr = _cargo(d, True, False)
     raw = [l for l in stderr.split('\n') if l and not l.startswith('{')]
+    if rendered:
+        return rc, [(m['message'], (m.get('rendered') or '')[:3000]) for m in diags if m.get('level') == 'error'], raw[-6:]
     return rc, [m['message'] for m in diags if m.get('level') == 'error'], raw[-6:]
 
 
